@@ -69,9 +69,9 @@ def analyse(ctx, f):
             if isinstance(n.func, ast.Attribute) and n.func.attr == 'pop' and not n.args and _is_unordered(ctx, f, n.func.value):
                 # a set.pop() inside a loop with a cut-off is harmful; inside a saturation loop it is a benign choice
                 loop = _enclosing_loop(f, n)
-                if loop is not None and isinstance(loop, ast.While) and _has_cutoff(loop, u(n.func.value)):
+                if loop is not None and _is_open_loop(loop) and _has_cutoff(loop, u(n.func.value)):
                     harmful.append((n, 'elements are popped from the unordered set {} in a loop that can stop before the set is exhausted (counter cut-off): which elements were expanded depends on the hash order'.format(u(n.func.value))))
-                elif loop is not None and isinstance(loop, ast.While) and _returns_element_value(loop):
+                elif loop is not None and _is_open_loop(loop) and _returns_element_value(loop):
                     choices.append((n, 'a search pops from an unordered set and returns a witness built from the element found first'))
         if isinstance(n, ast.Call) and isinstance(n.func, ast.Name) and n.func.id in ('list', 'tuple') and len(n.args) == 1 and _is_unordered(ctx, f, n.args[0]) \
                 and not _sanitised(f, n):
@@ -109,9 +109,14 @@ def _enclosing_loop(f, node):
     return best
 
 
+def _is_open_loop(loop):
+    from .work import is_count_loop
+    return isinstance(loop, ast.While) or is_count_loop(loop)
+
+
 def _has_cutoff(loop, wl):
-    conj = loop.test.values if isinstance(loop.test, ast.BoolOp) and isinstance(loop.test.op, ast.And) else [loop.test]
-    for c in conj:
+    from .work import loop_conj
+    for c in loop_conj(loop):
         if isinstance(c, ast.Compare) and isinstance(c.ops[0], (ast.Lt, ast.LtE, ast.Gt, ast.GtE)) and wl not in names_in(c):
             return True
     return False
